@@ -3,7 +3,7 @@
    pinned sampler). *)
 From Coq Require Import NArith List.
 From LV Require Import model.VecIndex model.Abft model.AbftRun
-  proofs.AbftFrame proofs.AbftBuild proofs.AbftProcess proofs.AbftWitness proofs.AbftOld.
+  proofs.AbftFrame proofs.AbftBuild proofs.AbftProcess proofs.AbftTransparent proofs.AbftWitness proofs.AbftOld.
 Import ListNotations.
 Local Open Scope N_scope.
 
@@ -35,6 +35,19 @@ Theorem C07_later_builds_unaffected : forall cap (real : N -> Prop) bound,
   build_pure es (l_vals st) (l_idx st) (l_roots st) (l_epoch st) (l_ctr st + N.of_nat (length hist) + 1) e.
 Proof. exact build_any_history. Qed.
 
+(* ... and a later Process -- frame check, root registration, the whole election, the emitted blocks and the
+   next state -- is the same for two instances that differ in the cache only, as long as both caches are
+   coherent with the index ([coh]: every cached answer is the index' answer; for entries left by earlier
+   calls this is the stability of forkless cause under index growth, a consequence of C05, and for entries
+   of dropped speculative events it is vacuous once their ids never recur: C04) *)
+Theorem C07_process_ignores_coherent_cache : forall cap end_block es st c e s',
+  add (l_idx st) (vev (l_vals st) e) = Some s' ->
+  coh (set_idx st s') -> coh (set_idx (set_fcc st c) s') ->
+  let x := process cap end_block es st e in
+  let x' := process cap end_block es (set_fcc st c) e in
+  fst (fst x) = fst (fst x') /\ snd (fst x) = snd (fst x') /\ R (snd x) (snd x').
+Proof. exact process_cache_transparent. Qed.
+
 (* non-vacuity: see C04_hypotheses_satisfiable; the same witness read as a C07 differential run *)
 Example C07_witness : last_obs (run_w sample (w_base ++ w_hist ++ [OpB x123])) = last_obs (run_w sample (w_base ++ [OpB x123])).
 Proof. vm_compute. reflexivity. Qed.
@@ -43,3 +56,4 @@ Print Assumptions C07_build_leaves_no_trace.
 Print Assumptions C07_rejected_process_leaves_no_trace.
 Print Assumptions C07_frame_check_ignores_cache.
 Print Assumptions C07_later_builds_unaffected.
+Print Assumptions C07_process_ignores_coherent_cache.
